@@ -366,6 +366,8 @@ def run(chk):
             if hasd and len(chk.cov["samples"]) < 6:
                 chk.sample({"function": fn["name"], "blocks": ["%s->%s" % b for b in fn["blocks"]], "bounded": fn["R"],
                             "run_sets": {"%d.%d" % k: list(v) for k, v in fn["S"].items()}})
+            if set(fn["order"]) != set(range(len(fn["blocks"]))):
+                stats["order_not_covering"] = stats.get("order_not_covering", 0) + 1   # hypothesis `fair` of the theorems
             # (a) executable spec of the property vs impl
             wf = m is not None and m["W"] == "1"
             if not wf:
@@ -472,6 +474,7 @@ def run(chk):
     chk.cov["distribution"] = stats
     chk.assumptions += ["CFG as built by x/tools/go/ssa; wf_cfg (RunDefers block has no successors, no defer after RunDefers) checked on every "
                         "function: %d not wf" % stats["not_wf"],
+                        "theorem hypothesis fair/covers_all (DomPreorder lists every block) checked on every function: %d do not satisfy it" % stats.get("order_not_covering", 0),
                         "native ground truth: all 2^9 valuations of the first 9 opaque branch conditions, <=14 conditions per run"]
     return chk.finish()
 
